@@ -1,5 +1,5 @@
-mod c17;
-mod c36;
+mod c13;
+mod c23;
 
 fn main() {
     let args: Vec<String> = std::env::args().skip(1).collect();
@@ -7,8 +7,8 @@ fn main() {
     vcore::quiet_panics();
     let ctx = vcore::Ctx::new(&id, &args[1.min(args.len())..]);
     match id.as_str() {
-        "C17" => c17::run(&ctx),
-        "C36" => c36::run(&ctx),
+        "C13" => c13::run(&ctx),
+        "C23" => c23::run(&ctx),
         _ => {
             eprintln!("unknown property id {id:?}");
             std::process::exit(2);
